@@ -116,6 +116,23 @@ Proof.
     + split; auto. split; simpl; auto.
 Qed.
 
+(** os.Remove with IsNotExist ignored: three outcomes — removed, failed (injected / directory), nothing there *)
+Lemma hoare_exec_stale : forall plan p (P : fs -> Prop) (Q : bool -> fs -> Prop),
+  (forall s s', P s -> step s (ORemove p) CGarbage = Some s' -> no_dup s' /\ Q true s') ->
+  (forall s, P s -> Q false s) ->
+  (forall s, P s -> s p = None -> Q true s) ->
+  hoare P (exec_remove_stale plan p) Q.
+Proof.
+  intros plan p P Q Hok Hfail Hmiss w HP [HS1 HS2] a w' E. unfold exec_remove_stale in E.
+  destruct (plan (ORemove p) (occ (ORemove p) (w_log w))).
+  - inversion E; subst; simpl. split; [auto|]. split; simpl; auto.
+  - destruct (step (w_fs w) (ORemove p) CGarbage) as [s'|] eqn:Es.
+    + inversion E; subst; simpl. destruct (Hok _ _ HP Es) as [Hn HQ]. split; auto. split; simpl; auto.
+    + destruct (w_fs w p) as [n|] eqn:Ep; inversion E; subst; simpl.
+      * split; auto. split; simpl; auto.
+      * split; auto. split; simpl; auto.
+Qed.
+
 (** a frequent shape: [if negb ok then ret x else k] *)
 Lemma hoare_if_negb : forall A (ok : bool) (m1 m2 : M A) (P : fs -> Prop) Q,
   (ok = false -> hoare P m1 Q) -> (ok = true -> hoare P m2 Q) ->
